@@ -223,3 +223,61 @@ func VerifC13_IdentifierWithQuote() {
 	verif.Reach("reparsed")
 	verif.Assert(err == nil, "quote-in-identifier-reparses")
 }
+
+var verifMorePositions = []string{
+	"insert into t (a) values (b) returning %s",
+	"update t set a = b where c = d returning %s",
+	"delete from t where a = b returning concat(c, %s)",
+	"execute stmt(%s)",
+	"execute stmt(a, %s)",
+	"select cast(%s as char) from t",
+	"select %s::text from t",
+	"select a from t where b = %s::bytea",
+	"prepare p as select a from t where b = %s",
+	"select a from t order by field(b, %s)",
+	"select a from t where b = any(array[%s])",
+	"insert into t (a) values (%s) on conflict do nothing",
+}
+
+// VerifC16_RedactMorePositions: further places where a client value can stand (RETURNING lists, EXECUTE arguments,
+// casts, PREPARE bodies, array constructors): the redacted form never carries the value.
+func VerifC16_RedactMorePositions() {
+	p := verif.Choose("position", 0, len(verifMorePositions)-1)
+	pg := verif.Choose("pg", 0, 1) == 1
+	verifDialect(pg)
+	m := verifMarker("marker", 3, 'G', 'V')
+	lit := append(append([]byte("'"), m...), '\'')
+	q := verifFill(verifMorePositions[p], lit)
+	red, err := RedactSQLQuery(q)
+	verif.Reach("redacted")
+	if err != nil {
+		return // a statement the parser does not accept is not logged as SQL text at all
+	}
+	tag := "/" + string(rune('a'+p))
+	if pg {
+		tag += "/pg"
+	}
+	verif.Assert(!verif.Contains([]byte(red), m), "literal-not-in-redacted-form"+tag)
+	_, red2, _, err := New(ModeStrict).HandleRawSQLQuery(q)
+	if err == nil {
+		verif.Assert(!verif.Contains([]byte(red2), m), "literal-not-in-handled-form"+tag)
+	}
+}
+
+// VerifC16_RedactBigNumber: a number too large for 64 bits is a client value like any other.
+func VerifC16_RedactBigNumber() {
+	pg := verif.Choose("pg", 0, 1) == 1
+	verifDialect(pg)
+	digits := verif.Bytes("digits", 3)
+	for i := range digits {
+		verif.Assume(verif.And(digits[i] >= '1', digits[i] <= '9'))
+	}
+	num := append([]byte("77777777777777777777"), digits...) // 23 digits
+	q := verifFill(verifPositions[verif.Choose("position", 0, 3)], num)
+	red, err := RedactSQLQuery(q)
+	verif.Reach("redacted")
+	if err != nil {
+		return
+	}
+	verif.Assert(!verif.Contains([]byte(red), digits), "big-number-not-in-redacted-form")
+}
